@@ -545,16 +545,17 @@ func checkC10(c *Ctx, rt *rapid.T) {
 				inv.Env = map[string]string{"GIT_DIR": "$ROOT/nonexistent.git"}
 			}
 		} else {
-			w.Extras.Shallow = g.PickStr([]string{"", "\n", fakeOID("shallow") + "\n"}, "shallowcontent")
-			if w.Extras.Shallow == "" {
-				w.Extras.Shallow = fakeOID("s2") + "\n"
-			}
+			// a shallow file that git itself reads as "shallow": one boundary
+			// commit, with or without the final newline (a file holding no entry at
+			// all is not a shallow repository for git and is not generated)
+			oid := fakeOID("s2")
 			for _, o := range w.Objects {
 				if o.Kind == KCommit && o.Stored {
-					w.Extras.Shallow = o.ID + "\n"
+					oid = o.ID
 					break
 				}
 			}
+			w.Extras.Shallow = oid + g.PickStr([]string{"\n", "", "\n\n"}, "shallowend")
 		}
 		sc := &Scenario{Format: 1, Property: "C10", Engine: "A", World: w, Inv: inv, Plan: GenPlan(g, false), Params: p}
 		if v := judgeC10(c, sc); v != nil {
